@@ -25,7 +25,7 @@ const waitW = 5 * unit
 
 func init() {
 	registry["C20"] = func(rep *core.Report) {
-		shards := []string{"delay", "debounce1", "debounce2", "throttle-script:false", "throttle-script:true", "throttle-conc:false", "throttle-conc:true", "throttle-graph:false", "throttle-graph:true"}
+		shards := []string{"delay", "debounce1", "debounce2", "throttle-script:false", "throttle-script:true", "throttle-conc:false", "throttle-conc:true", "throttle-graph:false", "throttle-graph:true", "debounce-graph"}
 		rep.Set("engine", "vrt+explore with virtual time: timers fire only when the explorer moves the clock (Advance is a scheduled operation; discrete-event jump when nothing is enabled), so every placement of calls relative to deadlines is an interleaving and all assertions are exact integer inequalities")
 		if !runWorkers(rep, "C20worker", shards, nil) {
 			fmt.Fprintln(os.Stderr, "C20: worker failure")
@@ -166,6 +166,8 @@ func c20worker(arg string) {
 		c20throttleConc(c, strings.HasSuffix(arg, "true"))
 	case strings.HasPrefix(arg, "throttle-graph:"):
 		c20throttleGraph(c, strings.HasSuffix(arg, "true"))
+	case arg == "debounce-graph":
+		c20debounceGraph(c)
 	}
 	c.st.States = len(c.states)
 	c.out.stats(*c.st)
@@ -761,6 +763,159 @@ func c20throttleGraph(c *c20ctx, trailing bool) {
 	c.st.Steps += e.Steps
 	c.st.Extra["throttle_graph_states"] += e.States
 	c.st.Extra["throttle_graph_cut_executions"] += e.Cuts
+	if !e.Complete && !stop {
+		c.st.Incomplete++
+	}
+	c.st.Samples = append(c.st.Samples, fmt.Sprintf("%s: %d global states, %d executions (%d cut at a visited state), fixpoint=%t", name, e.States, e.Execs, e.Cuts, e.Complete))
+}
+
+// ---------------------------------------------------------------- debounce: the reachable state graph
+
+// c20debounceGraph: as c20throttleGraph, for the debouncer. Driver {call(f_i) | cancel | Advance 2}* with
+// at most two calls without an Advance in between; every call passes its own closure. Monitor per
+// call: when it was made, whether a later call or cancel completed strictly before its deadline (then it
+// must never run), whether it ran. Invariants: no callback runs before its own deadline, none that was
+// superseded or cancelled in time runs at all, none runs twice, and the most recent call -- if neither a
+// call nor a cancel followed -- is never left with no timer armed and no callback in flight (it does run).
+func c20debounceGraph(c *c20ctx) {
+	name := "debounce state graph: driver{call | cancel | Advance 2}*"
+	c.st.Scenarios++
+	type callRec struct {
+		at         int64
+		mustNotRun bool
+		runs       int
+	}
+	type monitor struct {
+		calls        []*callRec // calls whose callback may still run (pruned when settled)
+		last         *callRec   // most recent call, nil after a cancel or once it has run
+		sinceAdvance int
+		viol, det    string
+		trace        []string
+	}
+	var m *monitor
+	reported := map[string]bool{}
+	e := &vrt.Explorer{Horizon: 4000, Quick: !thorough, Budget: c.budget * 20, Deadline: c.deadline, Stateful: true}
+	stop := false
+	e.StopEarly = func() bool { return stop }
+	body := func() {
+		m = &monitor{}
+		mm := m
+		call, cancel := gogu.NewDebounce(waitW)
+		vrt.SetKeyFn(func() string {
+			var sb strings.Builder
+			for _, r := range mm.calls {
+				age := now() - r.at
+				if age > 6 {
+					age = 6
+				}
+				fmt.Fprintf(&sb, "c(age%d,mnr=%t,runs=%d,last=%t)", age, r.mustNotRun, r.runs, r == mm.last)
+			}
+			fmt.Fprintf(&sb, "|since=%d", mm.sinceAdvance)
+			return sb.String()
+		})
+		settle := func() { // forget calls that can no longer run: settled (ran) or far past their deadline with no timer
+			out := mm.calls[:0]
+			for _, r := range mm.calls {
+				if now()-r.at <= 4 || r == mm.last { // past its deadline a call matters only while it is the last one (liveness)
+					out = append(out, r)
+				}
+			}
+			mm.calls = out
+		}
+		supersede := func(t int64) { // a call or cancel completed at time t: earlier calls still before their deadline must never run
+			for _, r := range mm.calls {
+				if t < r.at+5 {
+					r.mustNotRun = true
+				}
+			}
+		}
+		for mm.viol == "" {
+			// fairness bound: at most one fired callback may still be waiting to run when the driver
+			// goes on (otherwise never-scheduled callback threads pile up without limit)
+			vrt.WaitLiveAtMost(2)
+			if mm.last != nil && mm.last.runs == 0 && vrt.PendingTimers() == 0 && vrt.LiveThreads() == 1 {
+				mm.viol, mm.det = "Debounce/graph/last-call-never-runs", fmt.Sprintf("at time %d the call made at %d was followed by neither a call nor a cancel, has not run, and no timer is armed", now(), mm.last.at)
+				break
+			}
+			k := vrt.Choose(3)
+			if k == 0 && mm.sinceAdvance >= 2 {
+				k = 1
+			}
+			switch k {
+			case 0:
+				r := &callRec{at: now()}
+				mm.trace = append(mm.trace, fmt.Sprintf("call@%d", r.at))
+				call(func() {
+					t := now()
+					r.runs++
+					switch {
+					case r.runs > 1:
+						mm.viol, mm.det = "Debounce/graph/callback-runs-more-than-once", fmt.Sprintf("the callback of the call made at %d ran %d times", r.at, r.runs)
+					case t < r.at+5:
+						mm.viol, mm.det = "Debounce/graph/fires-early", fmt.Sprintf("the callback of the call made at %d ran at %d (wait 5)", r.at, t)
+					case r.mustNotRun:
+						mm.viol, mm.det = "Debounce/graph/runs-although-superseded-or-cancelled", fmt.Sprintf("the callback of the call made at %d ran at %d although a later call or a cancel had completed before its deadline %d", r.at, t, r.at+5)
+					}
+					mm.trace = append(mm.trace, fmt.Sprintf("run(call@%d)@%d", r.at, t))
+					if mm.last == r {
+						mm.last = nil
+					}
+				})
+				supersede(now())
+				r.mustNotRun = false
+				mm.calls = append(mm.calls, r)
+				mm.last = r
+				mm.sinceAdvance++
+			case 1:
+				vrt.Advance(2 * unit)
+				mm.sinceAdvance = 0
+				settle()
+			case 2:
+				mm.trace = append(mm.trace, fmt.Sprintf("cancel@%d", now()))
+				cancel()
+				supersede(now())
+				mm.last = nil
+			}
+		}
+	}
+	e.Check = func(x *vrt.Exec) {
+		key, detail := "", ""
+		for i := 0; i < x.NumThreads(); i++ {
+			if pm := x.ThreadAt(i).Panic; pm != "" {
+				key, detail = "Debounce/graph/panic", pm
+			}
+		}
+		if key == "" && m != nil && m.viol != "" {
+			key, detail = m.viol, m.det
+		}
+		if key == "" && x.Deadlock {
+			key, detail = "Debounce/graph/deadlock", "no thread enabled: "+x.DeadlockInfo
+		}
+		if key == "" && x.HorizonHit {
+			key, detail = "Debounce/graph/horizon", "an execution ran 4000 steps without reaching a visited state"
+		}
+		if key != "" && !reported[key] {
+			reported[key] = true
+			stop = true
+			ch := append([]int{}, e.LastChoices...)
+			c.out.finding(wFinding{key, detail, map[string]any{"scenario": name, "trace": m.trace, "choices": ch},
+				map[string]any{"engine": "conc", "check": "C20", "sub": "C20worker", "shard": c.st.Shard, "scenario": name, "choices": ch}})
+		}
+	}
+	if r := replayReq; r != nil {
+		if r.Scenario != name {
+			return
+		}
+		r.Seen = true
+		x := vrt.Run(r.Choices, 4000, !thorough, body)
+		e.LastChoices = r.Choices
+		e.Check(x)
+		return
+	}
+	e.Explore(body)
+	c.st.Execs += e.Execs
+	c.st.Steps += e.Steps
+	c.st.Extra["debounce_graph_states"] += e.States
 	if !e.Complete && !stop {
 		c.st.Incomplete++
 	}
